@@ -16,7 +16,7 @@ Not decided: server histories; that the decoded rows are right (C01).
 """
 from ..inline import inline_view
 from ..mir import AnchorLost
-from ..util import truth_edges, bool_edges, df_of, fn_short, in_set, backward_slice, callers_keys, operand_path, path_last, switch_on, switch_edges
+from ..util import dj_of, truth_edges, bool_edges, df_of, fn_short, in_set, backward_slice, callers_keys, operand_path, path_last, switch_on, switch_edges
 from .c10 import ok_sites
 from .c20 import slice_fields
 
@@ -186,6 +186,65 @@ def r2_r3(ctx, facts):
     return b
 
 
+def r5(ctx, facts):
+    r = ctx.rule("R5", "result metadata is skipped only on the user's opt-in or when this connection can be told a stale id; never for 0-column metadata", floor=2)
+    cb = facts.one(r"^scylla::network::connection::Connection::calculate_cached_metadata_params$")
+    dj = dj_of(cb, facts)
+    df = df_of(cb, facts)
+    aggs = [(bb, j, s) for bb in sorted(cb.live_blocks) for j, s in enumerate(cb.stmts(bb))
+            if s[0] == "A" and s[2][0] == "agg" and s[2][1][0] == "adt" and s[2][1][1].endswith("CachedMetadataParameters")]
+    if len(aggs) != 1:
+        raise AnchorLost("calculate_cached_metadata_params: expected one CachedMetadataParameters aggregate")
+    bb, j, s = aggs[0]
+    sk = s[2][2][s[2][1][4].index("skip_metadata")]
+    use = cb.calls_to("PreparedStatement::get_use_cached_result_metadata")
+    cols = cb.calls_to("ResultMetadata::col_count", "ResultMetadata::<'a>::col_count")
+    if len(use) != 1 or len(cols) != 1:
+        raise AnchorLost("calculate_cached_metadata_params: expected one get_use_cached_result_metadata and one col_count call (%d/%d)" % (len(use), len(cols)))
+    USE, COL = ("call", use[0].bb), ("call", cols[0].bb)
+    e = dj.expr_of_operand(sk)
+
+    def is_ext(x):
+        return x is not None and x[0] == "val" and x[1][1][-1:] == ("scylla_metadata_id_supported",)
+
+    def ext_of(stt):
+        for k, v in stt.items():
+            if is_ext(k):
+                return 1 if in_set(v, {1}) else 0 if in_set(v, {0}) else None
+        return None
+    bad, n = [], 0
+    for stt in dj.states_before_stmt(bb, j):
+        n += 1
+        v = dj.eval_in(stt, e) if e is not None else None
+        u = 1 if in_set(stt.get(USE), {1}) else 0 if in_set(stt.get(USE), {0}) else None
+        x = ext_of(stt)
+        cv = stt.get(COL)
+        zero = not (cv is not None and ((cv[0] == "notin" and 0 in cv[1]) or (cv[0] == "in" and 0 not in cv[1])))
+        if v == 0:
+            continue
+        if zero:
+            bad.append("may skip metadata although the cached metadata has 0 columns")
+        elif v == 1:
+            if not (u == 1 or x == 1):
+                bad.append("skips with use_cached_result_metadata=%s extension=%s" % (u, x))
+        elif not (is_ext(e) or is_ext(_resolve(dj, stt, e)) or e == USE):
+            bad.append("skip_metadata is %s (use_cached=%s extension=%s)" % (df.fmt_expr(e), u, x))
+    r.instance("skip-needs-opt-in-or-extension", n > 0 and not bad,
+               "skip_metadata may be true only if statement.get_use_cached_result_metadata() or this connection negotiated the metadata-id extension "
+               "(otherwise the server omits metadata and cannot signal that the cached one is stale: rows are decoded with stale metadata after a reprepare), "
+               "and never when the cached metadata has 0 columns: %s" % sorted(set(bad))[:3], cb.stmt_span(s))
+    r.instance("states", n > 0, "%d states at the snapshot" % n, cb.span, nontrivial=False)
+
+
+def _resolve(dj, stt, e):
+    """the expression a bool temp holds in this state, if the state records one"""
+    if e is not None and e[0] == "val":
+        v = stt.get(e)
+        if isinstance(v, tuple) and v and v[0] == "expr":
+            return v[1]
+    return None
+
+
 def _fmt_or(o):
     return "args%s calls%s" % (sorted(o[0]), sorted(x.split("::")[-1] for x in o[1]))
 
@@ -241,7 +300,7 @@ def r4(ctx, facts):
 
 def check(ctx):
     facts = inline_view(ctx.facts("default"))
-    for fn in (r1, r2_r3, r2_batch, r4):
+    for fn in (r1, r2_r3, r2_batch, r4, r5):
         try:
             fn(ctx, facts)
         except AnchorLost as ex:
